@@ -1,13 +1,12 @@
 //! C40 — the revisitable group-by partitions its input into maximal runs.
 //!
 //! The real `RevisitableGroupBy::next` / `RevisitableGroup::next` are driven over a slice of symbolic bytes of
-//! symbolic length (0..=N) with the key function `x & m` (symbolic mask `m`: from "all equal" to "all distinct"),
+//! symbolic length (0..=N, N = 5 in the quick tier, 7 in the thorough tier) with the key function `x & m` (symbolic mask `m`: from "all equal" to "all distinct"),
 //! and over two flattened slices. Bounded by the input length N (labelled bounded).
 use mmtk::verif_hooks::rev_group as rg;
 
-const N: usize = 7;
 
-struct Obs {
+struct Obs<const N: usize> {
     keys: [u8; N],
     lens: [usize; N],
     groups: usize,
@@ -17,7 +16,7 @@ struct Obs {
     overflow: bool,
 }
 
-fn check(data: &[u8; N], n: usize, m: u8, o: &Obs) {
+fn check<const N: usize>(data: &[u8; N], n: usize, m: u8, o: &Obs<N>) {
     assert!(!o.overflow, "C40.no_more_groups_or_items_than_input");
     // the groups concatenate to the input
     assert!(o.n_items == n, "C40.concatenation_has_the_input_length");
@@ -53,18 +52,26 @@ fn check(data: &[u8; N], n: usize, m: u8, o: &Obs) {
     }
 }
 
-fn new_obs() -> Obs {
+fn new_obs<const N: usize>() -> Obs<N> {
     Obs { keys: [0; N], lens: [0; N], groups: 0, items: [0; N], item_group: [0; N], n_items: 0, overflow: false }
 }
 
 #[kani::proof]
-#[kani::unwind(10)]
+#[kani::unwind(8)]
 fn c40_group_by_slice() {
+    group_by_slice::<5>();
+}
+#[kani::proof]
+#[kani::unwind(10)]
+fn c40_group_by_slice_deep() {
+    group_by_slice::<7>();
+}
+fn group_by_slice<const N: usize>() {
     let data: [u8; N] = kani::any();
     let n: usize = kani::any();
     kani::assume(n <= N);
     let m: u8 = kani::any();
-    let mut o = new_obs();
+    let mut o = new_obs::<N>();
     {
         let o1 = core::cell::RefCell::new(&mut o);
         rg::group_by_slice(
@@ -97,21 +104,29 @@ fn c40_group_by_slice() {
     check(&data, n, m, &o);
     kani::cover!(o.groups == N, "C40.cover.all_singleton_groups");
     kani::cover!(o.groups == 1 && n == N, "C40.cover.single_run");
-    kani::cover!(o.groups == 3 && o.lens[1] == 3, "C40.cover.three_groups");
+    kani::cover!(o.groups == 3 && o.lens[1] == 2, "C40.cover.three_groups");
     kani::cover!(n == 0, "C40.cover.empty");
 }
 
 /// Groups across the boundary of two flattened slices (the mmapper's use: slabs of chunk states).
 #[kani::proof]
-#[kani::unwind(10)]
+#[kani::unwind(8)]
 fn c40_group_by_flattened() {
+    group_by_flattened::<5>();
+}
+#[kani::proof]
+#[kani::unwind(10)]
+fn c40_group_by_flattened_deep() {
+    group_by_flattened::<7>();
+}
+fn group_by_flattened<const N: usize>() {
     let data: [u8; N] = kani::any();
     let n: usize = kani::any();
     kani::assume(n <= N);
     let cut: usize = kani::any();
     kani::assume(cut <= n);
     let m: u8 = kani::any();
-    let mut o = new_obs();
+    let mut o = new_obs::<N>();
     {
         let o1 = core::cell::RefCell::new(&mut o);
         let parts: [&[u8]; 2] = [&data[..cut], &data[cut..n]];
@@ -143,6 +158,6 @@ fn c40_group_by_flattened() {
         );
     }
     check(&data, n, m, &o);
-    kani::cover!(o.groups == 1 && cut == 3 && n == N, "C40.cover.run_spans_the_slice_boundary");
+    kani::cover!(o.groups == 1 && cut == 2 && n == N, "C40.cover.run_spans_the_slice_boundary");
     kani::cover!(cut == 0 && n > 0, "C40.cover.empty_first_slice");
 }
